@@ -508,13 +508,64 @@ func runMergeGuards(c *core.Ctx) {
 	// (b) seen-set consulted and updated with the event id
 	{
 		seenKey := "recv.seen[" + sub + "][" + msg + ".Event.ID]"
+		// the subscription's seen set held in a local: the map looked up from recv.seen[sub], or the
+		// fresh one that is stored there when the set is reset (`seen = make(…); stat.seen[sub] = seen`)
+		var isSeenSet func(v ssa.Value, depth int) bool
+		isSeenSet = func(v ssa.Value, depth int) bool {
+			v = an.Unwrap(v)
+			if v == nil || depth > 4 {
+				return false
+			}
+			if an.PathOf(v) == "recv.seen["+sub+"]" {
+				return true
+			}
+			switch x := v.(type) {
+			case *ssa.Extract:
+				if lk, isLk := x.Tuple.(*ssa.Lookup); isLk && x.Index == 0 {
+					return an.PathOf(lk.X) == "recv.seen" && an.PathOf(lk.Index) == sub
+				}
+			case *ssa.MakeMap:
+				stored := false
+				if x.Referrers() != nil {
+					for _, r := range *x.Referrers() {
+						if mu, isMU := r.(*ssa.MapUpdate); isMU && mu.Value == ssa.Value(x) && an.PathOf(mu.Map) == "recv.seen" && an.PathOf(mu.Key) == sub {
+							stored = true
+						}
+					}
+				}
+				return stored
+			case *ssa.Phi:
+				for _, e := range x.Edges {
+					if e != ssa.Value(x) && !isSeenSet(e, depth+1) {
+						return false
+					}
+				}
+				return true
+			}
+			return false
+		}
 		consulted := an.AllHave(fwd, func(g an.Cond) bool {
 			p := g.Path(g.V)
-			return (p == seenKey || p == "ok("+seenKey+")") && !g.True // map[id]bool value, or presence in a map[id]struct{}
+			if (p == seenKey || p == "ok("+seenKey+")") && !g.True { // map[id]bool value, or presence in a map[id]struct{}
+				return true
+			}
+			if g.True || len(g.Chain) > 0 {
+				return false
+			}
+			var lk *ssa.Lookup
+			switch x := g.V.(type) {
+			case *ssa.Lookup:
+				lk = x
+			case *ssa.Extract:
+				if l2, isL := x.Tuple.(*ssa.Lookup); isL && x.Index == 1 {
+					lk = l2
+				}
+			}
+			return lk != nil && an.PathOf(lk.Index) == msg+".Event.ID" && isSeenSet(lk.X, 0)
 		})
 		var upd []*ssa.BasicBlock
 		an.Region(fn, nil, func(o an.Occ) {
-			if mu, ok := o.In.(*ssa.MapUpdate); ok && o.Path(mu.Map) == "recv.seen["+sub+"]" && o.Path(mu.Key) == msg+".Event.ID" && (isConstBool(mu.Value, true) || isEmptyStruct(mu.Value.Type())) {
+			if mu, ok := o.In.(*ssa.MapUpdate); ok && (o.Path(mu.Map) == "recv.seen["+sub+"]" || (len(o.Chain) == 0 && isSeenSet(mu.Map, 0))) && o.Path(mu.Key) == msg+".Event.ID" && (isConstBool(mu.Value, true) || isEmptyStruct(mu.Value.Type())) {
 				upd = append(upd, mu.Block())
 			}
 		})
@@ -1037,6 +1088,218 @@ func slotMapOf(fill *ssa.Function) string {
 	return out
 }
 
+// maxFold: v is the running maximum of a loop over the list with access path list —
+// initialised with list[0], replaced by the element at hand exactly under
+// `elem.field > v.field` (or >=), the loop covering list[1:] (or the whole list) — read
+// where the loop is left by exhaustion.
+func maxFold(v ssa.Value, list, field string) (bool, string) {
+	r, ok := an.Unwrap(v).(*ssa.Phi)
+	if !ok {
+		return false, ""
+	}
+	h := r.Block()
+	if len(an.Latches(h)) == 0 {
+		return false, ""
+	}
+	loop := an.LoopBlocks(h)
+	elemOf := func(x ssa.Value) (*ssa.IndexAddr, bool) {
+		u, isU := an.Unwrap(x).(*ssa.UnOp)
+		if !isU || u.Op != token.MUL {
+			return nil, false
+		}
+		ia, isIA := u.X.(*ssa.IndexAddr)
+		return ia, isIA
+	}
+	sawInit, sawUpdate := false, false
+	for i, pb := range h.Preds {
+		e := r.Edges[i]
+		if !loop[pb] {
+			ia, isElem := elemOf(e)
+			if !isElem || an.PathOf(ia.X) != list {
+				return false, "the running maximum does not start with an element of the children's replies"
+			}
+			if k, isK := an.ConstInt(ia.Index); !isK || k != 0 {
+				return false, "the running maximum does not start with the first reply"
+			}
+			sawInit = true
+			continue
+		}
+		if e == ssa.Value(r) {
+			continue
+		}
+		ia, isElem := elemOf(e)
+		if !isElem {
+			return false, "the running maximum is replaced by something that is not a reply"
+		}
+		// the element of a loop that covers list[1:] or the whole list
+		base := an.Unwrap(ia.X)
+		if sl, isSl := base.(*ssa.Slice); isSl {
+			if an.PathOf(sl.X) != list || sl.High != nil {
+				return false, "the loop does not run over the children's replies"
+			}
+			if k, isK := an.ConstInt(sl.Low); sl.Low != nil && (!isK || (k != 0 && k != 1)) {
+				return false, "the loop skips replies"
+			}
+		} else if an.PathOf(base) != list {
+			return false, "the loop does not run over the children's replies"
+		}
+		if all, why := forAllLoopAt(e, ia.Block()); !all {
+			return false, "the loop does not visit every reply: " + why
+		}
+		// replaced only when the element is greater
+		greater := false
+		gs := an.Guards(h.Parent(), pb)
+		if iff, isIf := an.LastInstr(pb).(*ssa.If); isIf && len(pb.Succs) == 2 && pb.Succs[0] != pb.Succs[1] {
+			gs = append(gs, an.NormCond(an.Cond{V: iff.Cond, True: pb.Succs[0] == h, At: pb}))
+		}
+		ep, rp := an.PathOf(e)+"."+field, an.PathOf(r)+"."+field
+		for _, g := range gs {
+			b, isB := g.V.(*ssa.BinOp)
+			if !isB {
+				continue
+			}
+			x, y, op := an.PathOf(b.X), an.PathOf(b.Y), b.Op
+			if !g.True {
+				op = map[token.Token]token.Token{token.LSS: token.GEQ, token.LEQ: token.GTR, token.GTR: token.LEQ, token.GEQ: token.LSS}[op]
+			}
+			if x == ep && y == rp && (op == token.GTR || op == token.GEQ) {
+				greater = true
+			}
+			if x == rp && y == ep && (op == token.LSS || op == token.LEQ) {
+				greater = true
+			}
+		}
+		if !greater {
+			return false, "the running maximum is replaced without the element being greater"
+		}
+		sawUpdate = true
+	}
+	if !sawInit || !sawUpdate {
+		return false, "no running maximum over the children's replies"
+	}
+	// … and kept only when the element is not greater (an extra condition on the replacement would let a
+	// greater reply pass by)
+	for i, pb := range h.Preds {
+		if !loop[pb] || r.Edges[i] != ssa.Value(r) {
+			continue
+		}
+		notGreater := false
+		gs := an.Guards(h.Parent(), pb)
+		if iff, isIf := an.LastInstr(pb).(*ssa.If); isIf && len(pb.Succs) == 2 && pb.Succs[0] != pb.Succs[1] {
+			gs = append(gs, an.NormCond(an.Cond{V: iff.Cond, True: pb.Succs[0] == h, At: pb}))
+		}
+		for _, g := range gs {
+			b, isB := g.V.(*ssa.BinOp)
+			if !isB {
+				continue
+			}
+			x, y, op := an.PathOf(b.X), an.PathOf(b.Y), b.Op
+			if !g.True {
+				op = map[token.Token]token.Token{token.LSS: token.GEQ, token.LEQ: token.GTR, token.GTR: token.LEQ, token.GEQ: token.LSS}[op]
+			}
+			rp := an.PathOf(r) + "." + field
+			if strings.HasSuffix(x, "."+field) && y == rp && x != rp && (op == token.LEQ || op == token.LSS) {
+				notGreater = true
+			}
+			if x == rp && strings.HasSuffix(y, "."+field) && y != rp && (op == token.GEQ || op == token.GTR) {
+				notGreater = true
+			}
+		}
+		if !notGreater {
+			return false, "the running maximum can be kept although the element at hand was not compared (or is greater)"
+		}
+	}
+	// every reply that is greater replaces it: no path of an iteration with `elem > max` keeps the old value —
+	// the unchanged edges are the complement of the guard by construction of an if without else
+	return true, ""
+}
+
+// prefixWriteElem: the reply whose field a WriteString call writes (`b.WriteString(msg.MsgPrefix)` → msg).
+func prefixWriteElem(call *ssa.Call) ssa.Value {
+	if u, ok := an.Unwrap(call.Call.Args[1]).(*ssa.UnOp); ok {
+		if fa, ok := u.X.(*ssa.FieldAddr); ok {
+			return fa.X
+		}
+	}
+	return call.Call.Args[1]
+}
+
+// existsRejectedFlag: v is a flag that is true exactly when some reply of the list is not accepting:
+// false before a loop that visits every element of the list (up to an early exit once the flag is set)
+// and set to true only, and always, where `elem.Accepted` was found false.
+func existsRejectedFlag(v ssa.Value, list string) bool {
+	if list == "" {
+		return false
+	}
+	ph, ok := an.Unwrap(v).(*ssa.Phi)
+	if !ok {
+		return false
+	}
+	fn := ph.Parent()
+	seen := map[ssa.Value]bool{}
+	sawFalse, sawTrue := false, false
+	var walk func(p *ssa.Phi) bool
+	walk = func(p *ssa.Phi) bool {
+		if seen[p] {
+			return true
+		}
+		seen[p] = true
+		for i, e := range p.Edges {
+			switch x := e.(type) {
+			case *ssa.Phi:
+				if !walk(x) {
+					return false
+				}
+			case *ssa.Const:
+				if !isConstBool(x, true) {
+					if !isConstBool(x, false) {
+						return false
+					}
+					sawFalse = true
+					continue
+				}
+				// set to true: only behind `!elem.Accepted` for an element of the list
+				pred := p.Block().Preds[i]
+				gs := an.Guards(fn, pred)
+				if iff, isIf := an.LastInstr(pred).(*ssa.If); isIf && len(pred.Succs) == 2 && pred.Succs[0] != pred.Succs[1] {
+					gs = append(gs, an.NormCond(an.Cond{V: iff.Cond, True: pred.Succs[0] == p.Block(), At: pred}))
+				}
+				okSet := false
+				for _, g := range gs {
+					if an.PathOf(g.V) == list+"[*].Accepted" && !g.True {
+						if all, _ := forAllLoopAt(acceptedElem(g.V), g.At); all {
+							okSet = true
+						}
+					}
+				}
+				if !okSet {
+					return false
+				}
+				sawTrue = true
+			default:
+				return false
+			}
+		}
+		return true
+	}
+	if !walk(ph) || !sawFalse || !sawTrue {
+		return false
+	}
+	// every rejecting element sets it: the false edge of the Accepted test leads to the assignment without
+	// another condition in between (checked above: the assignment's own guards end with that test)
+	return true
+}
+
+// acceptedElem: the reply whose Accepted field v reads.
+func acceptedElem(v ssa.Value) ssa.Value {
+	if u, ok := an.Unwrap(v).(*ssa.UnOp); ok {
+		if fa, ok := u.X.(*ssa.FieldAddr); ok {
+			return fa.X
+		}
+	}
+	return v
+}
+
 func runCountMax(c *core.Ctx) {
 	P := c.P
 	fn := P.Method(P.Root, "mergeHandlerSessionCountState", "Msg")
@@ -1078,6 +1341,22 @@ func runCountMax(c *core.Ctx) {
 				a, b := an.PathOf(cc.Call.Args[0]), an.PathOf(cc.Call.Args[1])
 				good = a == "p:"+cmpFn.Params[0].Name()+".Count" && b == "p:"+cmpFn.Params[1].Name()+".Count"
 				detail = "comparator = cmp.Compare(" + a + ", " + b + ")"
+			}
+		}
+	}
+	if !good {
+		// the maximum written out: `ret := counts[0]; for _, c := range counts[1:] { if c.Count > ret.Count { ret = c } }; return ret`
+		slots := "recv.counts"
+		if fill := P.Method(P.Root, "mergeHandlerSessionCountState", "SetCountMsg"); fill != nil {
+			if m := slotMapOf(fill); m != "" {
+				slots = m
+			}
+		}
+		for _, rb := range an.ReturnBlocks(fn) {
+			if ok, why := maxFold(an.LastInstr(rb).(*ssa.Return).Results[0], slots+"[p:"+fn.Params[1].Name()+"]", "Count"); ok {
+				good = true
+			} else if why != "" {
+				detail = why
 			}
 		}
 	}
@@ -1279,6 +1558,20 @@ func runOkAgg(c *core.Ctx) {
 		if guardedByLen && isRej {
 			okRet = true
 		}
+		// the verdict found first by a scan of its own (`rejected := false; for … { if !msg.Accepted { rejected = true; break } }`)
+		// and the lists chosen by that flag
+		for _, g := range an.Guards(host, rb) {
+			if !existsRejectedFlag(g.V, slotList) {
+				continue
+			}
+			if g.True && isRej {
+				okRet = true
+				guardedByLen = true
+			}
+			if !g.True && slotList != "" && an.PathOf(arg) == slotList {
+				allWhenNoneRejected = true
+			}
+		}
 		// no list of accepted replies at all: with no rejecting reply every reply is an accepting
 		// one, so `join(all replies)` behind "the rejecting list is empty" is the accepted branch
 		if !isRej && slotList != "" && an.PathOf(arg) == slotList {
@@ -1312,11 +1605,27 @@ func runOkAgg(c *core.Ctx) {
 		okJoin = an.PathOf(ctor.Call.Args[0]) == mp+"[0].EventID" && an.PathOf(ctor.Call.Args[1]) == mp+"[0].Accepted"
 		// text: WriteString(msg.Message()) for each msg in order
 		wrote := false
+		var prefixWrite, msgWrite *ssa.Call
+		nWrites := 0
 		for _, ci := range calls(join) {
 			if call, ok := ci.(*ssa.Call); ok && strings.HasSuffix(an.CalleeName(&call.Call), "strings.Builder).WriteString") && an.InLoop(call.Block()) {
-				if ap := an.PathOf(call.Call.Args[1]); strings.Contains(ap, "ServerOKMsg).Message("+mp+"[*])") || ap == "("+mp+"[*].MsgPrefix + "+mp+"[*].Msg)" {
+				nWrites++
+				ap := an.PathOf(call.Call.Args[1])
+				if strings.Contains(ap, "ServerOKMsg).Message("+mp+"[*])") || ap == "("+mp+"[*].MsgPrefix + "+mp+"[*].Msg)" {
 					wrote = true
 				}
+				switch ap {
+				case mp + "[*].MsgPrefix":
+					prefixWrite = call
+				case mp + "[*].Msg":
+					msgWrite = call
+				}
+			}
+		}
+		// Message() spelled out: the prefix, then the text, written one after the other for each reply
+		if !wrote && nWrites == 2 && prefixWrite != nil && msgWrite != nil && prefixWrite.Block() == msgWrite.Block() && before(prefixWrite, msgWrite) {
+			if all, _ := forAllLoopAt(prefixWriteElem(prefixWrite), prefixWrite.Block()); all {
+				wrote = true
 			}
 		}
 		okJoin = okJoin && wrote && strings.Contains(an.PathOf(ctor.Call.Args[3]), "strings.Builder).String(")
